@@ -61,3 +61,17 @@ def e2e(args):
         return ['ERR', 'Recursion']
     except Exception as e:
         return ['ERR', exc_kind(e)]
+
+def eid_rewrite(args):
+    """(prefix, tree-sx) -> [tree-sx', [[old,new]...]] using a fresh IdGenerator"""
+    from . import xmlsx
+    from bluebell.xml import IdGenerator
+    prefix, tree = args
+    try:
+        el = xmlsx.from_sx(tree)
+        m = IdGenerator().rewrite_all_eids(el, prefix)
+        return [xmlsx.norm_sx(xmlsx.to_sx(el)), [[k, v] for k, v in m.items()]]
+    except RecursionError:
+        return ['ERR', 'Recursion']
+    except Exception as e:
+        return ['ERR', exc_kind(e)]
